@@ -592,7 +592,7 @@ def run(ctx: Ctx):
         plans = [(3, 2, all_ops(3, nq=1, subsets=False)), (2, 3, all_ops(2, nq=1))]
     else:
         plans = [(3, 3, all_ops(3, nq=1, subsets=False)), (3, 2, all_ops(3, times=(1, 2), nq=2)),
-                 (2, 4, all_ops(2, nq=1))]
+                 (2, 4, all_ops(2, nq=1, subsets=False)), (2, 3, all_ops(2, nq=2))]
     for nres, depth, alpha in plans:
         for ops in exhaustive(ctx, nres, depth, alpha):
             tr, _ = run_ops(ops)
